@@ -193,7 +193,7 @@ def run_tlc(module, cfg=None, env=None, workdir=None, timeout=1500, workers=1, x
     outcome; raises ToolError for time-outs and for TLC failing to run the spec."""
     t0 = time.time()
     meta = os.path.join(workdir, "tlc-%s-%d-%d" % (module, os.getpid(), random.randrange(1 << 30)))
-    jopts = "-Xss1g"
+    jopts = "-Xss1g -Djava.io.tmpdir=%s" % workdir      # TLC's own temporary directories go with the scratch directory
     if deque:
         jopts += " -Dtlc2.tool.queue.IStateQueue=StateDeque"
     e = dict(os.environ)
